@@ -100,6 +100,24 @@ func MapKeys[K comparable, V any](m map[K]V) []K {
 			keys[i], keys[j] = keys[j], keys[i]
 		}
 	}
+	if p := passthroughMapPerm; p > 0 && cur == nil && len(keys) > 1 {
+		// p-th permutation (Lehmer code) of the sorted keys
+		rest := append([]K{}, keys...)
+		out := keys[:0:0]
+		f := 1
+		for i := 2; i <= len(rest); i++ {
+			f *= i
+		}
+		p %= f
+		for n := len(rest); n > 0; n-- {
+			f /= n
+			i := p / f
+			p %= f
+			out = append(out, rest[i])
+			rest = append(rest[:i], rest[i+1:]...)
+		}
+		keys = out
+	}
 	return keys
 }
 
@@ -107,6 +125,11 @@ func MapKeys[K comparable, V any](m map[K]V) []K {
 func mapDesc() bool { return cur != nil && cur.mapDesc || cur == nil && passthroughMapDesc }
 
 var passthroughMapDesc bool
+var passthroughMapPerm int
+
+// SetPassthroughMapPerm selects, outside executions, the p-th permutation of
+// the sorted keys for every instrumented map iteration (0 = sorted).
+func SetPassthroughMapPerm(p int) { passthroughMapPerm = p }
 
 // SetPassthroughMapDesc sets the map order used outside executions.
 func SetPassthroughMapDesc(b bool) { passthroughMapDesc = b }
